@@ -308,6 +308,9 @@ def gen():
         ctor_copies = "false"
     else:
         T.fail(KD, conv[0], "cannot tell whether the constructor copies its input")
+    # ... and converts it to float64: with the caller's dtype (uint8, int8, bool ...) coordinate differences wrap around
+    expect(kws.get("dtype") in ("float", "np.float64", "numpy.float64", "'float64'", "'float'"), KD, conv[0],
+           "the constructor keeps the caller's dtype (points = np.array(points, dtype=float) expected): integer arithmetic may wrap")
     stores = [s for s in body if assign_to(s, "self.points")]
     expect(len(stores) == 1 and u(stores[0].value) == "points" and body.index(conv[0]) < body.index(stores[0]), KD, fn,
            "self.points = points (after the conversion) not found")
